@@ -26,6 +26,16 @@ func (x *Exec) isBVName(name string) bool {
 // coerceBV converts an Int-represented integer scalar to a bit vector when its variable is listed
 // in the contract's `bv` clause.
 func (x *Exec) coerceBV(name string, v Value) Value {
+	if fr := x.top(); fr != nil && fr.c != nil && hasName(fr.c.IntNames, name) {
+		if s, ok := v.(Scalar); ok && s.T.S.K == KBV && s.T.Op == "const" {
+			ii, _ := intInfoOf(s.Typ)
+			if ii.Signed {
+				return Scalar{Ite(BVCmp("bvslt", s.T, BVCi(0, s.T.S.W)), Sub(BV2Nat(s.T), IntB(pow2(s.T.S.W))), BV2Nat(s.T)), s.Typ}
+			}
+			return Scalar{BV2Nat(s.T), s.Typ}
+		}
+		return v
+	}
 	if !x.isBVName(name) {
 		return v
 	}
